@@ -34,12 +34,19 @@ is_822_local (const char *start, const char *end)
     int ch;
     int qpair = 0;
     int quote = 0;
+    int closed = 0; /* previous character closed a quoted-string */
 
 
     if (start == end)
         return inverse(EEAV_LPART_EMPTY);
 
     for (cp = start; cp < end && (ch = *(unsigned char *) cp) != 0; cp++) {
+        /* a quoted-string is a whole word: only '.' may follow it */
+        if (closed) {
+            if (ch != '.')
+                return inverse(EEAV_LPART_MISPLACED_QUOTE);
+            closed = 0;
+        }
         if (ch > 127)
             return inverse(EEAV_LPART_NOT_ASCII);
         if (!quote) {
@@ -79,7 +86,7 @@ is_822_local (const char *start, const char *end)
         else {
             /* qtext = <any CHAR excepting <">, "\" & CR, and including linear-white-space> */
             switch (ch) {
-            case '"':  { quote = 0; break; }
+            case '"':  { quote = 0; closed = 1; break; }
             case '\\': { qpair = 1; break; }
             /* excepting CR, and including linear-white-space> */
             case '\r': {
